@@ -186,12 +186,13 @@ static std::string run_isotope(const std::string & name, int nshots)
         ab2 = r64(e0) + 1.0;
       }
       struct WV { const char * tag; bool has; double a, b; };
-      WV wvs[5] = {{"none", false, 0, 0}, {"inside", true, in1, in2}, {"inverted", true, in2, in1}, {"above", true, ab1, ab2}, {"empty", true, in2, in2}};
+      // ("below": well ordered but wholly at or below zero - the effective window [max(0,min), min(e0,max)] is empty)
+      WV wvs[7] = {{"none", false, 0, 0}, {"inside", true, in1, in2}, {"inverted", true, in2, in1}, {"above", true, ab1, ab2}, {"empty", true, in2, in2}, {"below", true, -1.0, -0.5}, {"below0", true, -1.0, 0.0}};
       Attempt a_none;
-      for (int w = 0; w < 5; w++) {
+      for (int w = 0; w < 7; w++) {
         bool expect = base_expect;
         if (w == 2 || w == 4) expect = false;     // min >= max
-        if (w == 3 && capable) expect = false;    // empty effective window
+        if ((w == 3 || w == 5 || w == 6) && capable) expect = false;    // empty effective window
         Attempt a = attempt(name, level, mode, wvs[w].has, wvs[w].a, wvs[w].b, expect ? nshots : 1, 12345 + PHASE);
         cells++;
         if (w == 0) a_none = a;
